@@ -65,8 +65,8 @@ func hC09Files() []hC09File {
 			[][]string{{"t1", "08:00:00", "08:00:30", "s1", "1"}, {"t1", "08:10:00", "08:10:30", "s2", "2"}},
 			[][]string{{"", "08:20:00", "08:20:00", "s1", "3"}, {"t1", "08:20:00", "08:20:00", "", "3"}, {"t1", "08:20:00", "08:20:00", "s1", ""},
 				{"t1", "", "", "s1", "3"}, {"t1", "8h", "8h", "s1", "3"}, {"t1", "08:20:00", "08:20:00", "s1", "x"}, {"t1", "08:20:00", "08:20:00", "zz", "3"},
-				{"zz", "08:20:00", "08:20:00", "s1", "3"}},
-			[]string{"blank trip", "blank stop", "blank sequence", "no times", "unparsable times", "unparsable sequence", "dangling stop", "dangling trip"}},
+				{"zz", "08:20:00", "08:20:00", "s1", "3"}, {"zz", "08:20:00", "08:20:00", "zz", "3"}, {"", "", "", "", ""}},
+			[]string{"blank trip", "blank stop", "blank sequence", "no times", "unparsable times", "unparsable sequence", "dangling stop", "dangling trip", "dangling trip and stop", "all blank"}},
 	}
 }
 
